@@ -14,6 +14,34 @@ open Xgi Xgi.HG Xgi.Generated
 theorem C18_table_hypergraph (op : Op) (h : op.guardedByFreeze = true) : pyName op ∈ FreezeTable.hypergraph := by
   cases op <;> simp [Op.guardedByFreeze] at h <;> simp [pyName] <;> decide
 
+/-- the public methods the models and the probing argument table know as (potential) structural mutators -/
+def knownMutators : List String :=
+  ["add_node", "add_nodes_from", "remove_node", "remove_nodes_from", "add_edge", "add_edges_from",
+   "add_weighted_edges_from", "remove_edge", "remove_edges_from", "add_node_to_edge", "remove_node_from_edge",
+   "double_edge_swap", "random_edge_shuffle", "update", "clear", "clear_edges", "merge_duplicate_edges", "cleanup",
+   "add_simplex", "add_simplices_from", "add_weighted_simplices_from", "remove_simplex_id", "remove_simplex_ids_from",
+   "close"]
+
+/-- public methods that do not change structure (accessors, attribute setters, copies, `freeze` itself) -/
+def knownNonStructural : List String :=
+  ["nodes", "edges", "num_nodes", "num_edges", "set_node_attributes", "set_edge_attributes", "copy", "dual",
+   "freeze", "is_frozen", "has_simplex"]
+
+/-- **second obligation tied to the source**: every public method defined by the three classes (regenerated from the
+    source on every run) is classified.  A new public method — a possible new mutator that `freeze()` would have to
+    disable — breaks this obligation until it is classified (and the probing then has to show what it does when frozen). -/
+theorem C18_methods_classified :
+    (∀ m ∈ FreezeTable.hypergraphMethods, m ∈ knownMutators ∨ m ∈ knownNonStructural) ∧
+    (∀ m ∈ FreezeTable.dihypergraphMethods, m ∈ knownMutators ∨ m ∈ knownNonStructural) ∧
+    (∀ m ∈ FreezeTable.simplicialcomplexMethods, m ∈ knownMutators ∨ m ∈ knownNonStructural) := by
+  decide
+
+/-- every name `freeze()` of a class disables is a known mutator (nothing is frozen by accident) -/
+theorem C18_frozen_names_are_mutators :
+    (∀ m ∈ FreezeTable.hypergraph, m ∈ knownMutators) ∧ (∀ m ∈ FreezeTable.dihypergraph, m ∈ knownMutators) ∧
+    (∀ m ∈ FreezeTable.simplicialcomplex, m ∈ knownMutators) := by
+  decide
+
 /-- a disabled call on a frozen hypergraph raises the library's error and changes nothing at all -/
 theorem C18_frozen_guarded (s : HG) (op : Op) (hf : s.frozen = true) (hg : op.guardedByFreeze = true) :
     step s op = some (s, .err .lib) := by
